@@ -30,8 +30,9 @@ def RULE(tier):
             "minimum up to the first size that yields a single gram is rended by the real Memoer.rend (must return, within the size, "
             "without exception or hang); for every size whose gram count is 1..%d the grams are delivered to a fresh real receiver in "
             "every permutation, every permutation with one duplicate inserted at every position, every permutation of every strict "
-            "subset (nothing may be delivered), and every order-preserving merge of every permutation with the grams of a second memo "
-            "(in order%s). Oracle: inbox == multiset of (text, source, vid) of the complete memos. A case is one delivered datagram "
+            "subset (nothing may be delivered), every order-preserving merge of every permutation with the grams of a second memo "
+            "(in order%s), every such merge of every permutation of every non-empty strict subset (an incomplete first memo) with "
+            "the complete second memo, and every duplicate-carrying sequence followed or preceded by the complete second memo. Oracle: inbox == multiset of (text, source, vid) of the complete memos. A case is one delivered datagram "
             "sequence; all are distinct by construction." % (K(tier), " and reversed" if tier != "quick" else ""))
 
 
@@ -172,6 +173,22 @@ def sequences(nA, nB, tier):
         for bo in border:
             for s in merges(list(p), bo):
                 yield "merge", s, (True,) if tier == "quick" else both
+    # an INCOMPLETE first memo (every non-empty strict subset, every order) interleaved with a complete second memo:
+    # the second memo must still be delivered, the first must not
+    for k in range(1, nA):
+        for sub in combinations(A, k):
+            for p in permutations(sub):
+                for bo in border:
+                    for s in merges(list(p), bo):
+                        yield "partial-merge", s, both
+    # a complete first memo with one duplicated gram, followed (or preceded) by the complete second memo
+    for p in permutations(A):
+        p = list(p)
+        for g in A:
+            for pos in range(len(p) + 1):
+                d = p[:pos] + [g] + p[pos:]
+                yield "dup-then-second", d + B, both
+                yield "second-then-dup", B + d, both
 
 
 def encode_case(size, step, seq):
